@@ -23,6 +23,31 @@ func C09(r *h.Run) {
 	protos := []string{"connect", "grpc", "grpcweb"}
 	limits := []int{1, 7, 512, 1024, 65536}
 
+	// ---- allocation probe first: a prefix declaring 64 MiB against a small limit must not make
+	// the receiver allocate anything like that (if it does, the 4 GiB lies below are skipped:
+	// they would only crash the harness) ----
+	hugeLiesSafe := true
+	for _, protoName := range []string{"grpc", "connect", "grpcweb"} {
+		n := 1024
+		cfg := envCfg{Proto: protoName, Max: n}
+		var m0, m1 runtime.MemStats
+		runtime.GC()
+		runtime.ReadMemStats(&m0)
+		_, _, _, p := serveStream(cfg, h.NewChunkBody([][]byte{h.FrameLie(0, 64<<20, []byte("abc"))}, h.FinCleanEOF))
+		runtime.ReadMemStats(&m1)
+		alloc := m1.TotalAlloc - m0.TotalAlloc
+		r.Eval("length_lie_alloc", fmt.Sprintf("%s|%d|64MiB", protoName, n))
+		in := map[string]any{"proto": protoName, "limit": n, "declared": 64 << 20, "present": 3}
+		r.Sample("length_lie_alloc", map[string]any{"in": in, "total_alloc_delta": alloc})
+		if p != nil {
+			r.Fail(h.Failure{Key: "limit/panic", Family: "length_lie_alloc", What: fmt.Sprint("panic: ", p), Input: in})
+		}
+		if alloc > uint64(8*n+256*1024) {
+			hugeLiesSafe = false
+			r.Fail(h.Failure{Key: "limit/buffers-far-more-than-limit", Family: "length_lie_alloc", What: "a false length prefix made the receiver allocate substantially more than the read limit", Input: in, Actual: alloc})
+		}
+	}
+
 	type item struct {
 		frame   []byte
 		deliver []byte // nil slice with ok=false means "must be refused"
@@ -40,7 +65,9 @@ func C09(r *h.Run) {
 		}
 		// length lies
 		out = append(out, item{h.FrameLie(0, uint32(n+1), genPayload(rng, 2)), nil, false, "declares N+1, carries 2"})
-		out = append(out, item{h.FrameLie(0, 0xFFFFFFFF, genPayload(rng, 3)), nil, false, "declares 2^32-1"})
+		if hugeLiesSafe {
+			out = append(out, item{h.FrameLie(0, 0xFFFFFFFF, genPayload(rng, 3)), nil, false, "declares 2^32-1"})
+		}
 		if algo == "rle" {
 			// bomb: wire <= N < decompressed
 			reps := (n / 255) + 2
@@ -222,6 +249,9 @@ func C09(r *h.Run) {
 		}
 		// lying length prefix 2^32-1 with a limit: allocation stays small
 		for _, protoName := range []string{"grpc", "connect"} {
+			if !hugeLiesSafe {
+				break
+			}
 			cfg := envCfg{Proto: protoName, Max: n}
 			var m0, m1 runtime.MemStats
 			runtime.GC()
